@@ -153,10 +153,10 @@ func (w *World) FindFunc(fc *FuncContract) *ssa.Function {
 
 // ContractFor returns the contract attached to an SSA function, if any.
 func (w *World) ContractFor(fn *ssa.Function) *FuncContract {
-	if fn == nil || fn.Pkg == nil {
+	if fn == nil || fnPkg(fn) == nil {
 		return nil
 	}
-	key := fn.Pkg.Pkg.Path() + "."
+	key := fnPkg(fn).Pkg.Path() + "."
 	if fn.Signature.Recv() != nil {
 		t := fn.Signature.Recv().Type()
 		if p, ok := t.(*types.Pointer); ok {
@@ -278,4 +278,16 @@ func (w *World) globalInit(g *ssa.Global) (ast.Expr, *packages.Package) {
 		}
 	}
 	return nil, p
+}
+
+// fnPkg is the package of a function; instantiations of generic functions have no package of their own in go/ssa
+// and belong to the package of their origin.
+func fnPkg(fn *ssa.Function) *ssa.Package {
+	if fn.Pkg != nil {
+		return fn.Pkg
+	}
+	if o := fn.Origin(); o != nil {
+		return o.Pkg
+	}
+	return nil
 }
